@@ -95,6 +95,7 @@ type Drv struct {
 	touched         map[int]bool // observer slots (un)registered during the current op
 	unregDuring     []int
 	regDuring       []RegRec
+	serial          uint64
 	foreignMaxID    uint32 // highest entity ID used in this epoch by temporary entities the model does not know
 	cbSeen          map[EID]int
 	inBatchCb       bool
@@ -171,6 +172,8 @@ func NewStats() *Stats {
 // NewDrv creates a world with the given configuration.
 func NewDrv(name string, cfg Config, m *Model, st *Stats) *Drv {
 	d := &Drv{Name: name, Cfg: cfg, M: m, Stat: st, Guard: true, ByH: map[ecs.Entity]EID{}, tmaps: map[int]typed.TMap{}, touched: map[int]bool{}}
+	drvSerial++
+	d.serial = drvSerial
 	d.W = ecs.NewWorld(cfg.Caps...)
 	d.U = d.W.Unsafe()
 	for k := 0; k < cfg.Fillers; k++ {
@@ -247,8 +250,11 @@ func (d *Drv) hs(es []EID) []ecs.Entity {
 // RelCache holds the world-independent relation argument lists of the current case (nil: no sharing).
 var RelCache map[string][]ecs.Relation
 
-// relCacheOwner remembers the world a cached list was first handed to (coverage counter only).
-var relCacheOwner map[string]*ecs.World
+// relCacheOwner remembers the driver (by serial number - not by pointer, which would keep every world of the process
+// alive) a cached list was first handed to (coverage counter only).
+var relCacheOwner map[string]uint64
+
+var drvSerial uint64
 
 // argGuard watches one slice handed to the library as an argument: the library must neither modify it (including the
 // spare capacity behind its length) nor keep using it after the call returned - the caller may reuse it as a scratch buffer.
@@ -408,7 +414,7 @@ func (d *Drv) rels(rs []RelT, order []int, style int) []ecs.Relation {
 			key = b.String()
 		}
 		if c, ok := RelCache[key]; ok && key != "" {
-			if relCacheOwner[key] != d.W {
+			if relCacheOwner[key] != d.serial {
 				d.Stat.RelListsShared++ // a list first handed to another world
 			}
 			return c
@@ -420,9 +426,9 @@ func (d *Drv) rels(rs []RelT, order []int, style int) []ecs.Relation {
 	} else {
 		RelCache[key] = out
 		if relCacheOwner == nil || len(RelCache) == 1 {
-			relCacheOwner = map[string]*ecs.World{}
+			relCacheOwner = map[string]uint64{}
 		}
-		relCacheOwner[key] = d.W
+		relCacheOwner[key] = d.serial
 	}
 	for i, r := range rs {
 		st := style
